@@ -368,6 +368,51 @@ def long_iteration_oracle(ctx):
     ctx.support["long_iteration"] = dict(cases=1, nontrivial=1, failures=1 if detail else 0)
 
 
+def big_iteration_check(sc):
+    """"all documents" includes long ones: an iteration that delivers several hundred thousand results
+    delivers all of them (the action budget is per next(), not per iterator), through every entry point"""
+    kind, n = sc["kind"], sc["n"]
+    try:
+        if kind == "wc":
+            doc = list(range(n))
+            k = 0
+            for m in find_matches(path[gen_wc()], doc):
+                if m.data != k or m.data_name != k:
+                    return f"member {k} of a list of {n}: reported {m.path_as_str} = {m.data!r}", True
+                k += 1
+            if k != n:
+                return f"path[wc] over a list of {n} yields {k} matches", True
+        elif kind == "rec":
+            doc = {"rows": [{"v": i} for i in range(n)]}
+            k = sum(1 for _ in find_matches(path.rec, doc))
+            if k != 2 + 2 * n:
+                return f"path.rec over a document of {2 + 2 * n} nodes yields {k} matches", True
+        elif kind == "find":
+            doc = [{"v": i} for i in range(n)]
+            vals = list(find(path[gen_wc()].v, doc))
+            if vals != list(range(n)):
+                return f"find(path[wc].v) over {n} records yields {len(vals)} values (find_matches yields {sum(1 for _ in find_matches(path[gen_wc()].v, doc))})", True
+            m0 = get_match(path[0], doc)
+            vals = list(find(path.parent[gen_wc()].v, m0))
+            if vals != list(range(n)):
+                return f"find(path.parent[wc].v, match) over {n} records yields {len(vals)} values", True
+    except Exception as e:  # noqa
+        return f"{kind} over {n} elements raised {type(e).__name__}: {str(e)[:120]}", True
+    return None, True
+
+
+def gen_wc():
+    from treepath import wc
+    return wc
+
+
+def big_iteration_oracle_for(*cases):
+    def oracle(ctx):
+        it = iter(cases)
+        _run(ctx, "big_iteration", len(cases), len(cases), lambda rng: dict(next(it)), big_iteration_check)
+    return oracle
+
+
 # ---------------- C11: a Match tells the truth ----------------
 
 def match_truth_check(sc):
